@@ -658,6 +658,22 @@ std::string gen(Rng &r, const Args &a) {
     else if (r.below(3) == 0) { bool top = r.below(4) != 0; o << " (" << (top ? "top " : "bot ") << d << ")"; T[d] = Trk(); T[d].dead = !top; }
     else { unsigned a1 = r.below(NP); o << " (copy " << a1 << " " << d << ") (meeteq " << d << " " << a1 << ")"; T[a1] = T[d]; }
   }
+  // scripted tail (scenario library), on a fresh value of one slot: several objects reach ONE region through
+  // references created for another region (zero-offset gep / make + gep), each is stored through its own
+  // reference, then both are loaded: the region holds more than one cell, so no store may be strong
+  if (r.below(10) == 0) {
+    unsigned d = r.below(NP), ga = r.below(3), gb = (ga + 1 + r.below(2)) % 3;
+    int c1 = (int)r.range(-9, 9), c2 = c1 + (int)r.range(1, 9);
+    o << " (top " << d << ") (rinit " << d << " " << GNAME[ga] << ") (rinit " << d << " " << GNAME[gb] << ")";
+    o << " (mk " << d << " r0 " << GNAME[ga] << " 8 " << next_site++ << ")";
+    bool mk2 = r.coin(); // second object: allocated in ga and moved by gep, or allocated in gb directly
+    if (mk2) o << " (mk " << d << " r3 " << GNAME[gb] << " 8 " << next_site++ << ")";
+    else o << " (mk " << d << " r1 " << GNAME[ga] << " 8 " << next_site++ << ") (gep " << d << " r1 " << GNAME[ga] << " r3 " << GNAME[gb] << " (lin 0))";
+    o << " (gep " << d << " r0 " << GNAME[ga] << " r2 " << GNAME[gb] << " (lin 0))";
+    if (r.coin()) o << " (st " << d << " r2 " << GNAME[gb] << " " << c1 << ") (st " << d << " r3 " << GNAME[gb] << " " << c2 << ")";
+    else o << " (st " << d << " r3 " << GNAME[gb] << " " << c2 << ") (st " << d << " r2 " << GNAME[gb] << " " << c1 << ")";
+    o << " (ld " << d << " r2 " << GNAME[gb] << " v0) (ld " << d << " r3 " << GNAME[gb] << " v1)";
+  }
   o << "))";
   return o.str();
 }
